@@ -303,7 +303,33 @@ B64_STD = b"ABCDEFGHIJKLMNOPQRSTUVWXYZabcdefghijklmnopqrstuvwxyz0123456789+/"
 B64_URL = b"ABCDEFGHIJKLMNOPQRSTUVWXYZabcdefghijklmnopqrstuvwxyz0123456789-_"
 
 
+B64_EDGE_BYTES = bytes([0xfb, 0xff, 0xfe, 0xfa, 0xef, 0xbf, 0xbe, 0x3e, 0x3f, 0xf8, 0xfc, 0x00, 0x7f])
+
+
+def b64_rich(rng, n=None):
+    """bytes whose encoding is full of the 62nd/63rd alphabet characters ('+' '/' resp. '-' '_')"""
+    if n is None:
+        n = rng.choice([1, 2, 3, 4, 5, 7, 8, 10, 11, 16, 17])
+    return bytes(rng.choice(B64_EDGE_BYTES) for _ in range(n))
+
+
+def b64_wellformed(rng):
+    """a correct encoding made outside the implementation, in any (alphabet, padding) style: the decoder is run on
+    it under the case's charset, so every (encode style, decode charset) pair is compared with the model"""
+    import base64
+    raw = b64_rich(rng) if rng.random() < 0.7 else bytes(rng.randrange(256) for _ in range(rng.randint(0, 12)))
+    t = base64.urlsafe_b64encode(raw) if rng.random() < 0.5 else base64.b64encode(raw)
+    r = rng.random()
+    if r < 0.35:
+        t = t.rstrip(b"=")
+    elif r < 0.45:
+        t = t + b"=" * rng.randint(1, 3)
+    return t
+
+
 def b64_text(rng, cs):
+    if rng.random() < 0.3:
+        return b64_wellformed(rng)
     n = rng.randint(0, 24)
     alpha = B64_URL if cs == "url_safe" else B64_STD
     if rng.random() < 0.2:
@@ -501,6 +527,21 @@ def gen_cases(run, n):
                 for p in (True, False):
                     cases.append(case_lz4(x, p, p, rng.choice([ln, 1000000])))
                 cases.append(case_lz4frame(x, lz4_frame(rng, x), rng.choice([ln, 1000000, 0])))
+    # base64: bytes that produce the alphabet's last two characters, lengths 1..6 (1 and 2 mod 3 carry padding),
+    # for every (padding, charset) pair and with the options left to their defaults
+    for ln in range(1, 7):
+        for b in B64_EDGE_BYTES:
+            x = bytes([b]) * ln
+            for pad in (True, False):
+                for cs in ("standard", "url_safe"):
+                    cases.append(case_b64(x, b64_wellformed(rng), pad, cs))
+        for _ in range(6):
+            x = b64_rich(rng, ln)
+            for pad in (True, False):
+                for cs in ("standard", "url_safe"):
+                    cases.append(case_b64(x, b64_wellformed(rng), pad, cs))
+            cases.append(case_b64(x, b64_wellformed(rng), True, "standard", 2))
+            cases.append(case_b64(x, b64_wellformed(rng), False, "standard", 1))
     # every ASCII byte under every set (table sync), and every byte value
     for s in PCT_SETS:
         cases.append(case_pct(bytes(range(128)), b"", s))
@@ -514,7 +555,8 @@ def gen_cases(run, n):
         elif r < 0.26:
             cs = rng.choice(["standard", "url_safe", "standard", "url_safe", "bogus", "URL_SAFE", ""])
             d = rng.choice([0, 0, 0, 1, 2])
-            cases.append(case_b64(rand_bytes(rng), b64_text(rng, cs), rng.random() < 0.5, cs, d))
+            x = b64_rich(rng) if rng.random() < 0.3 else rand_bytes(rng)
+            cases.append(case_b64(x, b64_text(rng, cs), rng.random() < 0.5, cs, d))
         elif r < 0.46:
             s = rng.choice(PCT_SETS + ["BOGUS"] if rng.random() < 0.03 else PCT_SETS)
             cases.append(case_pct(pct_input(rng), pct_text(rng), s, default=rng.random() < 0.05))
